@@ -31,7 +31,9 @@
  *               sizes beyond the data are cut down (so 0 appears)
  *        For every payload in order on ONE connection: server->client (real send_frame/websocket_compress, the
  *        peer = RFC 7692 client built directly on zlib inflates) and client->server (peer deflates, the real
- *        receive path inflates):  -> rt [s2c=<ok|bad|fail:..> c2s=<ok|bad|err:..> n=<complen> frags=<sizes>]...
+ *        receive path inflates):  -> rt [need=<n> s2c=<ok|bad|fail:..> c2s=<ok|bad|err:..> n=<complen> frags=<sizes>]...
+ *        need = bytes zlib emits for this message incl. the tail (measured on a deflateCopy of the real stream;
+ *        -1 when that stream is no longer usable): websocket_compress offers it 2*len bytes (finding F37)
  *   dec <setup> <mode> <cuts> <hexstream>          arbitrary bytes as a compressed message to the receive path
  *                               -> dec ret=<OK|ERROR|CLOSED> n=<outlen> h=<fnv of output>
  *   mut <setup> <mode> <cuts> <mutation> <hexpayload>   peer-compress the payload, damage the stream, feed it
@@ -39,7 +41,6 @@
  *                               -> mut ret=.. n=.. same=<0|1> clen=<n>
  *   comp <setup> <hexpayload>   websocket_compress alone into an exactly 2*len byte buffer
  *                               -> comp ret=<n> out=<hex> tail=<0|1>      (tail: zlib's output ended 00 00 ff ff)
- *   leaks                       -> leaks live=<n>    allocations still live that were made since the last op started
  */
 #include <ctype.h>
 #include <stdarg.h>
@@ -167,8 +168,12 @@ static bool comp_ready;
 
 static void new_ws(unsigned level)
 {
-	conn = alloc_http_connection();
-	memset(conn, 0, sizeof *conn);
+	conn = alloc_http_connection();      /* as compression_test does: no memset, the allocator prepares the object */
+	memset(&conn->br, 0, sizeof conn->br);
+	memset(&conn->parser, 0, sizeof conn->parser);
+	conn->server = NULL;
+	conn->status_code = 0;
+	conn->is_local_connection = false;
 	conn->br.writev = h_writev;
 	conn->br.read_exactly = h_read_exactly;
 	conn->br.close = h_close;
@@ -258,6 +263,9 @@ static void peer_deflate(const uint8_t *p, size_t n, struct wire *out)
 	deflate(&peer_def, peer_cnc ? Z_FULL_FLUSH : Z_SYNC_FLUSH);
 	size_t have = bound - peer_def.avail_out;
 	if (have >= 4) have -= 4;
+	/* zlib emits nothing when there was no input since the last flush; RFC 7692 7.2.1 then has the sender
+	 * append an empty stored block (00 00 00 ff ff) and strip the tail: one byte 00 */
+	if (have == 0) { tmp[0] = 0; have = 1; }
 	wire_add(out, tmp, have);
 	free(tmp);
 }
@@ -284,7 +292,7 @@ static bool peer_inflate(const uint8_t *p, size_t n, struct wire *out)
 }
 
 /* ------------------------------------------------------------------ delivering a compressed message to the receive path */
-#define MAXFR 64
+#define MAXFR 2048
 static const char *retname(enum websocket_callback_return r)
 { return r == WS_OK ? "OK" : r == WS_ERROR ? "ERROR" : "CLOSED"; }
 
@@ -433,7 +441,21 @@ static void op_rt(char **w, int nw)
 	for (int m = 4; m < nw; m++) {
 		size_t n; uint8_t *payload = unhex(w[m], &n);
 		/* ---- server -> client through the real send path */
-		P(" [s2c=");
+		long need = -1;
+		if (!conn_closed) {
+			z_stream cp;
+			memset(&cp, 0, sizeof cp);
+			if (deflateCopy(&cp, *(ws->extension_compression.strm_comp)) == Z_OK) {
+				size_t bound = deflateBound(&cp, n) + 64;
+				uint8_t *tb = malloc(bound);
+				cp.next_in = payload; cp.avail_in = (uInt)n; cp.next_out = tb; cp.avail_out = (uInt)bound;
+				deflate(&cp, ws->extension_compression.server_no_context_takeover ? Z_FULL_FLUSH : Z_SYNC_FLUSH);
+				need = (long)(bound - cp.avail_out);
+				deflateEnd(&cp);
+				free(tb);
+			}
+		}
+		P(" [need=%ld s2c=", need);
 		if (conn_closed) P("closed");
 		else {
 			uint8_t *copy = malloc(n ? n : 1);       /* exact size: send_frame may unmask/compress in place */
